@@ -22,7 +22,22 @@ type mapOp struct {
 
 func (r *Run) mapOps(fn *Func, path *Path) []mapOp {
 	var out []mapOp
+	// an operation inside a looked-into helper is in a loop when the call of the helper is
+	var lookIn []bool
 	for i, ev := range path.Events {
+		if ev.Helper && ev.Kind == EvEnter {
+			lookIn = append(lookIn, ev.Loop || (len(lookIn) > 0 && lookIn[len(lookIn)-1]))
+			continue
+		}
+		if ev.Helper && ev.Kind == EvExit {
+			if len(lookIn) > 0 {
+				lookIn = lookIn[:len(lookIn)-1]
+			}
+			continue
+		}
+		if len(lookIn) > 0 && lookIn[len(lookIn)-1] {
+			ev.Loop = true
+		}
 		switch ev.Kind {
 		case EvAssign:
 			if ev.Tok != token.ASSIGN && ev.Tok != token.DEFINE {
@@ -83,23 +98,58 @@ func (r *Run) retCanon(fn *Func, path *Path) []string {
 	for k := len(path.Events) - 1; k >= 0; k-- {
 		re := path.Events[k]
 		if re.Kind == EvReturn && re.Depth == 0 {
-			var out []string
-			for _, res := range re.Results {
-				c := r.P.Canon(re.Fn, res)
-				if id, ok := ast.Unparen(res).(*ast.Ident); ok && strings.HasPrefix(c, "local:") {
-					if rhs, idx, ok := lastDefOnPath(re.Fn, path, k, re.Fn.Info().Uses[id]); ok && rhs != nil {
-						c = r.P.Canon(re.Fn, rhs)
-						if _, isIdx := ast.Unparen(rhs).(*ast.IndexExpr); isIdx && idx > 0 {
-							c = fmt.Sprintf("%s#%d", c, idx) // (v, ok := m[k]: v is m[k] itself, ok its presence)
-						}
-					}
-				}
-				out = append(out, c)
-			}
-			return out
+			return r.retCanonAt(path, k, 0)
 		}
 	}
 	return nil
+}
+
+// retCanonAt: the canonical forms of what the return event at index k hands back; `return helper(x)` with a
+// looked-into helper of several results is what the helper's own return (on this path) hands back.
+func (r *Run) retCanonAt(path *Path, k int, depth int) []string {
+	re := path.Events[k]
+	if len(re.Results) == 1 && depth < 4 {
+		if call, isCall := ast.Unparen(re.Results[0]).(*ast.CallExpr); isCall {
+			if tv, ok := re.Fn.Info().Types[call]; ok {
+				if tup, isTuple := tv.Type.(*types.Tuple); isTuple && tup.Len() > 1 {
+					// the helper's return: the last return one level deeper before k, inside the look-in of this call
+					for j := k - 1; j >= 0; j-- {
+						pe := path.Events[j]
+						if pe.Kind == EvEnter && pe.Depth == re.Depth && pe.Helper && pe.ViaCall == call {
+							break
+						}
+						if pe.Kind == EvReturn && pe.Depth == re.Depth+1 {
+							inLook := false
+							for i := j - 1; i >= 0; i-- {
+								if e := path.Events[i]; e.Kind == EvEnter && e.Helper && e.ViaCall == call {
+									inLook = true
+									break
+								}
+							}
+							if inLook && len(pe.Results) == tup.Len() {
+								return r.retCanonAt(path, j, depth+1)
+							}
+							break
+						}
+					}
+				}
+			}
+		}
+	}
+	var out []string
+	for _, res := range re.Results {
+		c := r.P.Canon(re.Fn, res)
+		if id, ok := ast.Unparen(res).(*ast.Ident); ok && (strings.HasPrefix(c, "local:") || depth > 0) {
+			if rhs, idx, ok := lastDefOnPath(re.Fn, path, k, re.Fn.Info().Uses[id]); ok && rhs != nil {
+				c = r.P.Canon(re.Fn, rhs)
+				if _, isIdx := ast.Unparen(rhs).(*ast.IndexExpr); isIdx && idx > 0 {
+					c = fmt.Sprintf("%s#%d", c, idx) // (v, ok := m[k]: v is m[k] itself, ok its presence)
+				}
+			}
+		}
+		out = append(out, c)
+	}
+	return out
 }
 
 func (r *Run) modelFunc(name string) *Func {
@@ -1949,20 +1999,114 @@ func (r *Run) perConnectionObjects() {
 		r.Undecide("J5", "type websocket.RealtimeHandler not found")
 		return
 	}
-	n := 0
+	cmdPkg := repoMod + "/cmd"
 	funcs := append([]*Func{}, r.P.All...)
 	for _, lf := range r.P.Lits {
 		funcs = append(funcs, lf)
 	}
 	sort.Slice(funcs, func(i, j int) bool { return funcs[i].Name < funcs[j].Name })
+	// the innermost function (declared or literal) of package cmd around a position
+	innermost := func(pos token.Pos) *Func {
+		var best *Func
+		for _, f := range funcs {
+			if f.Pkg.PkgPath != cmdPkg || f.Body == nil || pos < f.Body.Pos() || pos >= f.Body.End() {
+				continue
+			}
+			if best == nil || (f.Body.Pos() >= best.Body.Pos() && f.Body.End() <= best.Body.End()) {
+				best = f
+			}
+		}
+		return best
+	}
+	takesConn := func(ft *ast.FuncType, info *types.Info) bool {
+		if ft == nil || ft.Params == nil {
+			return false
+		}
+		for _, fld := range ft.Params.List {
+			if t := info.TypeOf(fld.Type); t != nil {
+				if p, ok := t.(*types.Pointer); ok {
+					if n, ok := p.Elem().(*types.Named); ok && n.Obj().Name() == "Conn" && n.Obj().Pkg() != nil && n.Obj().Pkg().Path() == "golang.org/x/net/websocket" {
+						return true
+					}
+				}
+			}
+		}
+		return false
+	}
+	// per-connection function: runs once per accepted connection — it is handed the connection, sits inside such
+	// a function, or is only ever called from such functions
+	memo := map[*Func]int{}
+	var perConn func(f *Func, depth int) bool
+	perConn = func(f *Func, depth int) bool {
+		if f == nil || depth > 4 {
+			return false
+		}
+		if v, ok := memo[f]; ok {
+			return v == 1
+		}
+		memo[f] = 0
+		res := false
+		switch {
+		case f.Lit != nil:
+			res = takesConn(f.Lit.Type, f.Info()) || perConn(innermost(f.Lit.Pos()), depth+1)
+		case f.Decl != nil && takesConn(f.Decl.Type, f.Info()):
+			res = true
+		case f.Obj != nil && f.Obj.Name() != "main" && f.Obj.Name() != "init":
+			calls, all := 0, true
+			for _, g := range funcs {
+				if g.Pkg.PkgPath != cmdPkg || g.Body == nil {
+					continue
+				}
+				ast.Inspect(g.Body, func(nd ast.Node) bool {
+					if l, isLit := nd.(*ast.FuncLit); isLit && r.P.Lits[l] != g {
+						return false
+					}
+					if c, ok := nd.(*ast.CallExpr); ok && calleeObj(g.Info(), c) == types.Object(f.Obj) {
+						calls++
+						if !perConn(g, depth+1) {
+							all = false
+						}
+					}
+					return true
+				})
+			}
+			res = calls > 0 && all
+		}
+		if res {
+			memo[f] = 1
+		}
+		return res
+	}
+	isCreation := func(x ast.Expr) bool {
+		x = ast.Unparen(x)
+		if u, ok := x.(*ast.UnaryExpr); ok && u.Op == token.AND {
+			x = ast.Unparen(u.X)
+		}
+		switch v := x.(type) {
+		case *ast.CompositeLit:
+			return true
+		case *ast.CallExpr:
+			_ = v
+			return true // make(…), new(…), a constructor
+		}
+		return false
+	}
+	n := 0
 	for _, fn := range funcs {
-		if fn.Pkg.PkgPath != repoMod+"/cmd" {
+		if fn.Pkg.PkgPath != cmdPkg || fn.Body == nil {
 			continue
 		}
 		info := fn.Info()
 		ast.Inspect(fn.Body, func(nd ast.Node) bool {
 			if l, isLit := nd.(*ast.FuncLit); isLit && r.P.Lits[l] != fn {
 				return false // judged as a function of its own
+			}
+			if call, isCall := nd.(*ast.CallExpr); isCall {
+				// the receipt forwarder is started once for the process
+				if g, isF := calleeObj(info, call).(*types.Func); isF && g.Name() == "HandleReceipts" && g.Pkg() != nil && g.Pkg().Path() == repoMod+"/receipt" {
+					r.Check("J5", "cmd:receipt-forwarder-started-once", !perConn(fn, 0), call.Pos(),
+						"the receipt forwarder is started in the per-connection function %s: it runs on that connection's terms, and receipts that were accepted but not yet forwarded are lost when the connection ends", fn.Name)
+				}
 			}
 			cl, ok := nd.(*ast.CompositeLit)
 			if !ok {
@@ -1973,56 +2117,51 @@ func (r *Run) perConnectionObjects() {
 				return true
 			}
 			n++
-			// (1) built per connection: inside a literal, or in a function that is not main
-			perConn := fn.Lit != nil || (fn.Obj != nil && fn.Obj.Name() != "main")
-			r.Check("J5", "cmd:handler-built-per-connection", perConn, cl.Pos(), "the realtime handler is built in %s, outside any per-connection function: all connections would share one handler", fn.Name)
-			// (3) what all connections meet in is built once, outside the per-connection function: the session
-			// store (two connections find each other's session only in a common store) and the receipt queue with
-			// its forwarder (a forwarder that ends with one connection drops the receipts it accepted)
-			definedOutside := func(x ast.Expr) bool {
-				x = ast.Unparen(x)
-				if u, isU := x.(*ast.UnaryExpr); isU && u.Op == token.AND {
-					x = ast.Unparen(u.X)
+			// (1) built per connection
+			r.Check("J5", "cmd:handler-built-per-connection", perConn(fn, 0), cl.Pos(), "the realtime handler is built in %s, which does not run once per connection: all connections would share one handler", fn.Name)
+			// (3) what all connections meet in is built once, outside the per-connection functions: the session
+			// store (two connections find each other's session only in a common store) and the receipt queue (a queue
+			// of its own per connection has a forwarder that ends with it, or none)
+			for _, q := range []struct{ field, site, why string }{
+				{"Sessions", "cmd:session-store-shared", "every connection has a store of its own and no two participants can meet in a session"},
+				{"ReceiptChan", "cmd:receipt-queue-shared", "its forwarder lives and ends with that connection, and receipts it accepted are dropped when the client leaves"},
+			} {
+				v := litField(cl, q.field)
+				if v == nil {
+					continue
 				}
-				id, isID := x.(*ast.Ident)
-				if !isID {
-					return false
-				}
-				obj := info.Uses[id]
-				return obj != nil && (obj.Pos() < fn.Body.Pos() || obj.Pos() > fn.Body.End())
-			}
-			if perConn {
-				if sv := litField(cl, "Sessions"); sv != nil {
-					r.Check("J5", "cmd:session-store-shared", definedOutside(sv), sv.Pos(),
-						"the session store handed to a connection's handler (%s) is built in the per-connection function %s: every connection has a store of its own and no two participants can meet in a session", r.P.exprStr(sv), fn.Name)
-				}
-				if rv := litField(cl, "ReceiptChan"); rv != nil {
-					r.Check("J5", "cmd:receipt-queue-shared", definedOutside(rv), rv.Pos(),
-						"the receipt queue handed to a connection's handler (%s) is built in the per-connection function %s: its forwarder lives and ends with that connection, and receipts it accepted are dropped when the client leaves", r.P.exprStr(rv), fn.Name)
-				}
-				ast.Inspect(fn.Body, func(k ast.Node) bool {
-					if call, isCall := k.(*ast.CallExpr); isCall {
-						if g, isF := calleeObj(info, call).(*types.Func); isF && g.Name() == "HandleReceipts" && g.Pkg() != nil && g.Pkg().Path() == repoMod+"/receipt" {
-							r.Check("J5", "cmd:receipt-forwarder-started-once", false, call.Pos(),
-								"the receipt forwarder is started in the per-connection function %s: it runs on that connection's terms, and receipts that were accepted but not yet forwarded are lost when the connection ends", fn.Name)
+				// &x: the object is the variable x, wherever its first value came from
+				if u, isU := ast.Unparen(v).(*ast.UnaryExpr); isU && u.Op == token.AND {
+					if id, isID := ast.Unparen(u.X).(*ast.Ident); isID {
+						if obj := info.Uses[id]; obj != nil {
+							holder := innermost(obj.Pos())
+							r.Check("J5", q.site, !perConn(holder, 0), v.Pos(),
+								"what is handed to a connection's handler as %s (%s) is a variable of the per-connection function %s: %s", q.field, r.P.exprStr(v), fnName(holder), q.why)
+							continue
 						}
 					}
-					return true
-				})
+				}
+				o, ofn := r.originOf(fn, v, 0)
+				if o == nil || ofn == nil || !isCreation(o) {
+					continue // where it comes from is not in sight; nothing is claimed about it
+				}
+				holder := innermost(o.Pos())
+				r.Check("J5", q.site, !perConn(holder, 0), v.Pos(),
+					"what is handed to a connection's handler as %s (%s) is created in the per-connection function %s: %s", q.field, r.P.exprStr(o), fnName(holder), q.why)
 			}
-			// (2) its modules are built here too
+			// (2) its modules are built per connection too, each one a fresh object
 			mv := litField(cl, "Modules")
 			if mv == nil {
 				return true
 			}
-			ml, mfn := r.P.compositeOfIn(fn, mv)
-			inside := ml != nil && mfn.root() == fn.root() && ml.Pos() >= fn.Body.Pos() && ml.End() <= fn.Body.End()
-			fresh := inside
-			if inside {
+			o, ofn := r.originOf(fn, mv, 0)
+			fresh := false
+			if ml, isLit := ast.Unparen(o).(*ast.CompositeLit); isLit && ofn != nil && perConn(innermost(ml.Pos()), 0) {
+				fresh = true
 				for _, el := range ml.Elts {
-					switch v := ast.Unparen(el).(type) {
+					switch e := ast.Unparen(el).(type) {
 					case *ast.UnaryExpr:
-						if _, isCL := ast.Unparen(v.X).(*ast.CompositeLit); !isCL || v.Op != token.AND {
+						if _, isCL := ast.Unparen(e.X).(*ast.CompositeLit); !isCL || e.Op != token.AND {
 							fresh = false
 						}
 					case *ast.CallExpr, *ast.CompositeLit:
@@ -2032,11 +2171,18 @@ func (r *Run) perConnectionObjects() {
 				}
 			}
 			r.Check("J5", "cmd:modules-built-per-connection", fresh, mv.Pos(),
-				"the modules handed to a connection's handler are not constructed in the function that builds that handler (%s): a module list built once and shared makes every connection use the same module objects, whose session and state follow the connection that joined last", r.P.exprStr(mv))
+				"the modules handed to a connection's handler are not constructed per connection (%s): a module list built once and shared makes every connection use the same module objects, whose session and state follow the connection that joined last", r.P.exprStr(mv))
 			return true
 		})
 	}
 	r.Floor("J5", "realtime handler constructions in package cmd", n, 1)
+}
+
+func fnName(f *Func) string {
+	if f == nil {
+		return "?"
+	}
+	return f.Name
 }
 
 func ruleNoGlobalSessionData(r *Run) {
@@ -2202,7 +2348,7 @@ func ruleMembershipContracts(r *Run) {
 	type spec struct {
 		fn, table, kind string
 	}
-	n := 0
+	n, nw := 0, 0
 	for _, q := range []spec{
 		{"models.(*Session).AddParticipant", "recv.participants", "write"},
 		{"models.(*Session).RemoveParticipant", "recv.participants", "delete"},
@@ -2253,8 +2399,8 @@ func ruleMembershipContracts(r *Run) {
 			if fn.Pkg.PkgPath != pkgModels || fn.Obj == nil {
 				continue
 			}
-			if r.writesField(fn, pkgModels, "Session", field) {
-				n++
+			if r.writesField(fn, pkgModels, "Session", field) || r.mutatesThroughMethod(fn, fv) {
+				nw++
 				nm := fn.Name
 				okW := who[nm]
 				if !okW {
@@ -2273,5 +2419,53 @@ func ruleMembershipContracts(r *Run) {
 			}
 		}
 	}
-	r.Floor("S-Members", "paths of the membership primitives and table writers", n, 8)
+	r.Floor("S-Members", "paths of the membership primitives", n, 4)
+	r.Floor("S-Members", "functions that write the member / entity tables", nw, 4)
+}
+
+// mutatesThroughMethod: fn calls, on the field itself (s.participants.put(p)), a method of a defined container
+// type that assigns or deletes elements of its receiver.
+func (r *Run) mutatesThroughMethod(fn *Func, fv *types.Var) bool {
+	found := false
+	info := fn.Info()
+	ast.Inspect(fn.Body, func(nd ast.Node) bool {
+		call, ok := nd.(*ast.CallExpr)
+		if !ok || found {
+			return !found
+		}
+		se, ok := ast.Unparen(call.Fun).(*ast.SelectorExpr)
+		if !ok {
+			return true
+		}
+		rx, ok := ast.Unparen(se.X).(*ast.SelectorExpr)
+		if !ok || info.Uses[rx.Sel] != types.Object(fv) {
+			return true
+		}
+		m, _ := calleeObj(info, call).(*types.Func)
+		md := r.P.Funcs[m]
+		if md == nil || md.Body == nil || md.Recv == nil {
+			return true
+		}
+		ast.Inspect(md.Body, func(k ast.Node) bool {
+			isRecv := func(x ast.Expr) bool {
+				id, ok := ast.Unparen(x).(*ast.Ident)
+				return ok && md.Info().Uses[id] == md.Recv
+			}
+			switch v := k.(type) {
+			case *ast.AssignStmt:
+				for _, l := range v.Lhs {
+					if ix, ok := ast.Unparen(l).(*ast.IndexExpr); ok && isRecv(ix.X) {
+						found = true
+					}
+				}
+			case *ast.CallExpr:
+				if b, ok := calleeObj(md.Info(), v).(*types.Builtin); ok && (b.Name() == "delete" || b.Name() == "clear") && len(v.Args) >= 1 && isRecv(v.Args[0]) {
+					found = true
+				}
+			}
+			return true
+		})
+		return true
+	})
+	return found
 }
